@@ -32,7 +32,9 @@ impl<'a> Checksum<'a> {
         // refused exactly when some entry is not an even number of hex digits
         Err(e) => e == ParseError::InvalidQualifier && !all_values_hex(value.entries()),
         // otherwise: the entries in strictly ascending algorithm order, lower-case hex -- one text, for EVERY order in which the map yields them
-        Ok(t) => all_values_hex(value.entries()) && t@ == canon_text(value.entries()),
+        Ok(t) => all_values_hex(value.entries()) && t@ == canon_text(value.entries())
+            // the text of a non-empty entry set is non-empty
+            && ((exists|k: Seq<char>| #[trigger] value.entries().contains_key(k)) ==> t@.len() > 0),
     }''',
                 begin='    proof { axiom_string_from(); }\n    let ghost m = value.entries();',
                 rw=[('R5', r'value\.algorithms\.into_iter\(\)\.collect\(\)', 'x_hm_into_vec(value.algorithms)', 1),
@@ -59,7 +61,11 @@ impl<'a> Checksum<'a> {
                 lemma_listing_text_nonempty_iff(es.take(it.index@ as int));
                 if it.index@ > 0 { lemma_listing_text_step(es, it.index@ - 1); }
             }'''),
-                       (r'Ok\(SmallString::from\(v\)\)', 'before', '    proof { lemma_all_ok(es, m); assert(es.take(es.len() as int) == es); lemma_canon_listing(es, m); }'),
+                       (r'Ok\(SmallString::from\(v\)\)', 'before', '''    proof { lemma_all_ok(es, m); assert(es.take(es.len() as int) == es); lemma_canon_listing(es, m);
+        if exists|k: Seq<char>| #[trigger] m.contains_key(k) {
+            let k = choose|k: Seq<char>| #[trigger] m.contains_key(k);
+            lemma_listing_covers(es, m, k); lemma_listing_text_nonempty(es);
+        } }'''),
                        ],
                 loops={0: '''
         invariant
